@@ -10,7 +10,7 @@ LEVEL_NOTE = 'Exact-rational arithmetic with nan/+-inf (IEEE rounding of sums/me
 TECHNIQUE = 'Lean 4 proof over a hand-written model + model/implementation correspondence + implementation-level oracle'
 LEAN_MODULE = "Hg.Props.C01"
 THEOREMS = ["Hg.C01.add_zero_right", "Hg.C01.add_zero_left", "Hg.C01.add_comm", "Hg.C01.add_assoc", "Hg.C01.fill_add_hom",
-            "Hg.C01.fillAll_append", "Hg.C01.partition_invariant", "Hg.C01.count_transform_partition_invariant"]
+            "Hg.C01.fillAll_append", "Hg.C01.partition_invariant", "Hg.C01.np_partition_invariant", "Hg.C01.count_transform_partition_invariant"]
 CASES = {"quick": 320, "thorough": 12000}
 RULE = ("random tree spec (all 19 primitives, depth<=3), stream of <=14 weighted records over the tree's critical values "
         "incl. NaN/+-inf and gate weights, random partition into 1..5 chunks (empty ones allowed), random reduction "
@@ -85,6 +85,36 @@ def build(p):
     for i, op in enumerate(ops):
         if op[0] == "add":
             expect.append(("noraise", i, "merging partial results of one tree must not raise"))
+    # np_partition_invariant: each chunk filled by ONE vectorised fill with its weight vector, merged in the same schedule,
+    # equals the whole up to zero-weight bins — where the vectorised fill's own domain applies (non-negative finite weights,
+    # a quantity-bearing tree, no NaN reaching a Sum: known finding C03-sum-nan)
+    import math
+
+    from props import c03 as _c03
+
+    def np_ok(w):
+        return isinstance(w, (int, float)) and not isinstance(w, bool) and math.isfinite(w) and w >= 0
+
+    if _c03.has_quantity(spec) and all(np_ok(w) for _, w in stream) and not _c03.nan_reaches_sum(spec, [[d, w] for d, w in stream]):
+        for i, c in enumerate(chunks):
+            ops.append(("new", "n%d" % i, spec))
+            ops.append(("fillsnp", "n%d" % i, c, "array"))
+            expect.append(("reply", len(ops) - 1, "ok", "fill.numpy of a chunk raised or modified its inputs"))
+        ncount = [0]
+
+        def emit_np(s_):
+            if isinstance(s_, int):
+                return "n%d" % s_
+            a, b = emit_np(s_[0]), emit_np(s_[1])
+            h = "nr%d" % ncount[0]
+            ncount[0] += 1
+            ops.append(("add", h, a, b))
+            expect.append(("noraise", len(ops) - 1, "merging vectorised partial results of one tree must not raise"))
+            return h
+
+        ntop = emit_np(p["sched"])
+        expect.append(("eqdoc_pruned", ntop, "w", "partition invariance with vectorised chunk fills"))
+        ops += [("mcheck", ["prune", "ntp", ntop], "ok"), ("mcheck", ["prune", "wp", "w"], "ok"), ("mcheck", ["same", "ntp", "wp"], True)]
     # the hypotheses of the C01 theorems, evaluated on the model's copies of these very states
     ops.append(("new", "zf", spec))
     for name in ("iszero", "hastmpl", "nobins", "good"):
